@@ -9,7 +9,9 @@ import (
 	"math/rand"
 	"os"
 	"path/filepath"
+	"runtime"
 	"strconv"
+	"strings"
 	"sync"
 	"testing"
 )
@@ -87,3 +89,54 @@ func hx(b []byte) string {
 }
 
 func newRng(salt int64) *rand.Rand { return rand.New(rand.NewSource(seed()*1000003 + salt)) }
+
+
+// census counts the live goroutines that were started by the library itself
+// (runtime.Stack's "created by" line), by creating function: C14 says that
+// none is left for a finished RPC or an ended tunnel.
+type gcensus struct {
+	handlers, swatchers, strans int // server: serveStream goroutines, stream-context watchers, one-Send goroutines
+	loops, cwatchers, ctrans    int // client: receive loops, stream-context watchers, one-Send goroutines
+	other                       int
+}
+
+func census() gcensus {
+	buf := make([]byte, 1<<20)
+	for {
+		n := runtime.Stack(buf, true)
+		if n < len(buf) {
+			buf = buf[:n]
+			break
+		}
+		buf = make([]byte, 2*len(buf))
+	}
+	var c gcensus
+	const pfx = "created by github.com/jhump/grpctunnel."
+	for _, g := range strings.Split(string(buf), "\n\n") {
+		i := strings.LastIndex(g, pfx)
+		if i < 0 {
+			continue
+		}
+		f := g[i+len(pfx):]
+		if j := strings.IndexAny(f, " \n"); j >= 0 {
+			f = f[:j]
+		}
+		switch {
+		case f == "(*tunnelServer).createStream":
+			c.handlers++
+		case f == "(*tunnelServerStream).serveStream":
+			c.swatchers++
+		case strings.HasPrefix(f, "(*tunnelServer).") || strings.HasPrefix(f, "(*tunnelServerStream)."):
+			c.strans++
+		case f == "newTunnelChannel":
+			c.loops++
+		case f == "(*tunnelChannel).newStream":
+			c.cwatchers++
+		case strings.HasPrefix(f, "(*tunnelChannel).") || strings.HasPrefix(f, "(*tunnelClientStream)."):
+			c.ctrans++
+		default:
+			c.other++
+		}
+	}
+	return c
+}
